@@ -317,10 +317,13 @@ def fill (dim : Nat) : List (List Nat) → List LLine → NDA (List Rat) → M (
     | .junk => .error .index
     | _ => fill dim is ls a
 
+/-- the binary64 number `1e-9` (default cell of a single-point axis) -/
+def nm1 : Rat := 4835703278458517/4835703278458516698824704
+
 /-- origin, cell and point count per axis -/
 def legOrigin (es : List (Nat × List Rat)) : List Rat := es.map fun e => e.2.getD 0 0
 def legCell (es : List (Nat × List Rat)) : List Rat :=
-  es.map fun e => if 1 < e.2.length then e.2.getD 1 0 - e.2.getD 0 0 else 1/1000000000
+  es.map fun e => if 1 < e.2.length then e.2.getD 1 0 - e.2.getD 0 0 else nm1
 def legN (es : List (Nat × List Rat)) : List Nat := es.map fun e => e.1
 def legP1 (es : List (Nat × List Rat)) : List Rat :=
   tab es.length fun a => (legOrigin es).getD a 0 - (legCell es).getD a 0 * (1/2)
